@@ -118,8 +118,13 @@ class logistics_equation(Problem):
         u = self.dtype_u(u0)
 
         if self.direct:
-            d = (1 - dt * self.lam) ** 2 + 4 * dt * self.lam * rhs
-            u = (-(1 - dt * self.lam) + np.sqrt(d)) / (2 * dt * self.lam)
+            b = 1 - dt * self.lam
+            d = b**2 + 4 * dt * self.lam * rhs
+            if b >= 0:
+                # cancellation-free form of the same root; also valid for dt = 0
+                u = 2 * rhs / (b + np.sqrt(d))
+            else:
+                u = (-b + np.sqrt(d)) / (2 * dt * self.lam)
             return u
 
         else:
